@@ -47,14 +47,14 @@ func genC15(t *tape.Tape, tier string) any {
 	c.HeaderS = []int{5, 20, 60}[t.Intn(3)]
 	c.TLSS = []int{3, 10, 45}[t.Intn(3)]
 	c.PPS = []int{2, 7, 33}[t.Intn(3)]
-	kinds := []string{"no-byte", "head-k", "between", "slow-origin", "idle-then-slow-head"}
+	kinds := []string{"no-byte", "head-k", "between", "slow-origin", "idle-then-slow-head", "pipelined-partial-head"}
 	switch c.Stack {
 	case "tls":
 		kinds = append(kinds, "hello-k", "hello-k")
 	case "pp":
 		kinds = append(kinds, "pp-k", "pp-k")
 	case "pp+tls":
-		kinds = append(kinds, "pp-k", "hello-k", "pp-k")
+		kinds = append(kinds, "pp-k", "hello-k", "pp-k", "slow-pp-then-slow-hello", "slow-pp-then-slow-hello")
 	case "mitm":
 		kinds = append(kinds, "mitm-no-hello", "mitm-hello-k", "mitm-hello-k")
 	}
@@ -270,6 +270,48 @@ func runC15(env *core.Env, ci any) {
 				r.phaseAt = accept
 				r.lo, r.hi = tlsTO, tlsTO
 				waitClosed(raw, r)
+			case "slow-pp-then-slow-hello":
+				// inside every limit: the PROXY header takes half of its limit, the ClientHello then three quarters of the
+				// handshake limit. Each phase has its own limit, so this client must be served.
+				time.Sleep(ppTO / 2)
+				raw.Write(ppHeader)
+				time.Sleep(tlsTO * 3 / 4)
+				tc := tls.Client(raw, &tls.Config{RootCAs: ca.Pool(), ServerName: "proxy.example"})
+				r.peer.Kind = "within-every-limit"
+				r.phaseAt = accept
+				if err := tc.Handshake(); err != nil {
+					r.closedAt = now()
+					return
+				}
+				tok := fmt.Sprintf("tk%dz", i+1)
+				fmt.Fprintf(tc, "GET http://%s.ok.example/%s HTTP/1.1\r\nHost: %s.ok.example\r\n\r\n", tok, tok, tok)
+				tc.SetReadDeadline(time.Now().Add(11 * time.Hour))
+				m, err := h1.ReadResponse(bufio.NewReader(tc), "GET")
+				if err == nil && m.Status == 200 {
+					r.served = true
+				} else {
+					r.closedAt = now()
+				}
+			case "pipelined-partial-head":
+				conn, err := establish(raw, "")
+				if err != nil {
+					r.setupErr = err.Error()
+					return
+				}
+				tok := fmt.Sprintf("tk%dz", i+1)
+				first := fmt.Sprintf("GET http://%s.ok.example/%s HTTP/1.1\r\nHost: %s.ok.example\r\n\r\n", tok, tok, tok)
+				second := fmt.Sprintf("GET http://%s.ok.example/%s-second HTTP/1.1\r\nHost: %s.ok.example\r\n\r\n", tok, tok, tok)
+				k := 1 + p.K%(len(second)-1)
+				// one segment: a complete request and the beginning of the next one; then silence
+				conn.Write([]byte(first + second[:k]))
+				r.phaseAt = now()
+				br := bufio.NewReader(conn)
+				if m, err := h1.ReadResponse(br, "GET"); err != nil || m.Status != 200 {
+					r.setupErr = fmt.Sprintf("first exchange failed: %v", err)
+					return
+				}
+				r.lo, r.hi = hdr, hdr
+				waitClosed(&prefixConn{Conn: conn, r: br}, r)
 			case "head-k", "between", "slow-origin", "idle-then-slow-head":
 				conn, err := establish(raw, "")
 				if err != nil {
@@ -414,6 +456,13 @@ func runC15(env *core.Env, ci any) {
 				env.Fail("stall-closed-early", feature, "peer %d idled for less than the idle limit, then sent its request head within half the header limit, but was closed at %v instead of being served (idle=%v header=%v)", i, r.closedAt, idle, hdr)
 			}
 			env.Probe("idle_then_slow_head_served")
+			continue
+		}
+		if r.peer.Kind == "within-every-limit" {
+			if !r.served {
+				env.Fail("stall-closed-early", feature+"/slow-header-then-slow-hello", "peer %d sent its PROXY header after %v (limit %v) and its ClientHello %v after that (handshake limit %v): inside every limit, yet it was closed at %v instead of being served", i, ppTO/2, ppTO, tlsTO*3/4, tlsTO, r.closedAt)
+			}
+			env.Probe("slow_but_within_every_limit_served")
 			continue
 		}
 		if r.peer.Kind == "slow-origin" {
